@@ -1,4 +1,4 @@
-(* Tie_cts_closures_cbc2dec.v -- semantic tie of the CbcCs2 decryption closure body (cts/src/cbc_cs2.rs) to Cts.cbc_cs2_dec.
+(* Tie_cts_closures_cbc2.v -- semantic ties of the CbcCs2 decryption and encryption closure bodies (cts/src/cbc_cs2.rs) to Cts.cbc_cs2_dec.
    Proved in stages: cbc_cs2_dec_head (statements up to the bulk decryption over all whole blocks but the last, through
    `blocks.split_at(mid).0`), cbc_cs2_dec_tail (the un-stealing step on the last bs + tail bytes), composed with
    MirLemmas.run_stmts_app; the whole-block case is plain CBC. *)
@@ -409,3 +409,234 @@ Section CbcCs2Dec.
         * rewrite xorb_length, X1, X2. lia.
   Qed.
 End CbcCs2Dec.
+
+Section CbcCs2Enc.
+  Variable C : cipher.
+  Let bs := c_bs C.
+  Hypothesis bs_pos : 0 < bs.
+  Hypothesis E_len : forall x, length x = bs -> length (c_E C x) = bs.
+  Let X := bctx C [("cbc_enc", FSem (cbc_enc_sem C)); ("xor", FSem xor_sem); ("core::mem::replace", FSem replace_sem)]
+                  [("into_chunks::BS", VNat bs); ("Block::<B>::default()", VBlk (zeros bs)); ("B::BlockSize::USIZE", VNat bs)].
+
+  Lemma tie_cts__cbc_cs2__BlockCipherEncClosure__Closure__call iv al ib it ob ot :
+    length iv = bs -> all_len bs ib -> all_len bs ob -> length ib = length ob -> 1 <= length ib ->
+    length it = length ot -> length ot < bs ->
+    exists e' o', run_body X (cenv true iv al (concat ib ++ it) (concat ob ++ ot)) cts__cbc_cs2__BlockCipherEncClosure__Closure__call = Some (e', VUnit)
+      /\ lookup "buf" e' = Some (VBuf al (concat ib ++ it) o')
+      /\ cbc_cs2_enc C iv (mkmem al (concat ib ++ it) (concat ob ++ ot)) = Ok (mkmem al (concat ib ++ it) o').
+  Proof.
+    intros Hiv Hib Hob Hnb Hnb1 Htl Htl2. unfold run_body. unfold block in *.
+    remember (length ib) as nb eqn:Enb.
+    destruct (bulkS C bs_pos (cts_cbc_enc C) (fun iv bl => cbc_chain iv (cbc_enc_spec (c_E C) iv bl)) (fun iv bl => cbc_enc_spec (c_E C) iv bl)
+               (cts_cbc_enc_eq C) iv al ib it ob ot nb
+               (fun bl H => conj (cbc_enc_spec_length (c_E C) iv bl) (cbc_enc_spec_all_len bs (c_E C) E_len iv bl Hiv H))
+               Hib Hob (eq_sym Enb) (eq_sym Hnb) Htl)
+      as (Ecells & HCl & HCa & Ecbc & Eouts & Emain).
+    remember (length ot) as tl eqn:Etl.
+    fold bs in Ecells, HCl, HCa, Ecbc, Eouts, Emain.
+    remember (cbc_enc_spec (c_E C) iv (map rd_in (map2 (mkcell al) ib ob))) as Cs eqn:ECs.
+    assert (Hci : length (concat ib) = nb * bs) by (rewrite (all_len_concat_length bs) by auto; lia).
+    assert (Hco : length (concat ob) = nb * bs) by (rewrite (all_len_concat_length bs) by auto; lia).
+    remember (concat ib ++ it) as i eqn:Ei. remember (concat ob ++ ot) as o eqn:Eo.
+    assert (HLi : length i = nb * bs + tl) by (subst i; rewrite app_length; lia).
+    assert (HLo : length o = nb * bs + tl) by (subst o; rewrite app_length; lia).
+    assert (Hdiv : ndiv (length o) bs = nb).
+    { unfold ndiv. rewrite HLo. symmetry. apply (Nat.div_unique _ _ _ tl); lia. }
+    assert (F0 : in_range 0 (c_bs C) = true) by (apply in_range_true; fold bs; lia).
+    run_prefix 2. fold bs. rewrite Hdiv. replace (length o - nb * bs) with tl by lia.
+    remember (cells_of bs al (firstn (nb * bs) (skipn 0 i)) (firstn (nb * bs) (skipn 0 o))) as cells0 eqn:Ec0.
+    assert (Eouts' : outs_of (ce_cs C iv cells0) = concat Cs) by exact Eouts.
+    assert (Eiv1 : ce_iv C iv cells0 = last Cs iv).
+    { unfold ce_iv. rewrite Ecbc. reflexivity. }
+    assert (Hol : length (concat Cs) = nb * bs).
+    { rewrite (all_len_concat_length bs) by auto. unfold block in *. nia. }
+    assert (Hiv1 : length (last Cs iv) = bs).
+    { apply all_len_last; [auto | intros E0; rewrite E0 in HCl; cbn in HCl; lia]. }
+    assert (Eo1 : MirSem.splice 0 (nb * bs) (concat Cs) o = concat Cs ++ ot).
+    { subst o. apply seg_write_head. lia. }
+    assert (F1 : fits 0 (nb * bs) (length o) = true) by (apply fits_true; lia).
+    assert (F2 : fits 0 (nb * bs) (length i) = true) by (apply fits_true; lia).
+    assert (F3 : len_eq (length (concat Cs)) (nb * bs) = true) by (apply len_eq_true; exact Hol).
+    assert (Emodel : cbc_cs2_enc C iv (mkmem al i o) =
+       if Nat.eqb tl 0 then Ok (mkmem al i (concat Cs ++ ot)) else cbc_steal_enc C (last Cs iv) (mkmem al i (concat Cs ++ ot)) nb tl).
+    { unfold cbc_cs2_enc. fold bs. unfold mlen. cbn [m_out].
+      assert (Hd : length o / bs = nb) by (rewrite HLo; symmetry; apply (Nat.div_unique _ _ _ tl); lia).
+      assert (Hm : length o mod bs = tl) by (rewrite HLo; symmetry; apply (Nat.mod_unique _ _ nb); lia).
+      rewrite Hd, Hm. replace (Nat.ltb (length o) bs) with false by (symmetry; apply Nat.ltb_ge; nia).
+      rewrite Emain. cbn [obind]. subst cells0. rewrite Ecbc. reflexivity. }
+    unfold bs in F1, F2, F3.
+    Opaque ce_iv ce_cs cells_of outs_of.
+    run_prefix 1.
+    match goal with |- context [outs_of (ce_cs C ?a ?b)] => replace (outs_of (ce_cs C a b)) with (concat Cs) by (symmetry; subst cells0; exact Eouts') end.
+    match goal with |- context [ce_iv C ?a ?b] => replace (ce_iv C a b) with (last Cs iv) by (symmetry; subst cells0; exact Eiv1) end.
+    match goal with |- context [len_eq ?a ?b] => replace (len_eq a b) with true by (symmetry; exact F3) end. cbv beta iota.
+    match goal with |- context [MirSem.splice ?a ?b ?c ?d] => replace (MirSem.splice a b c d) with (concat Cs ++ ot) by (symmetry; exact Eo1) end.
+    assert (HL1 : length (concat Cs ++ ot) = nb * bs + tl) by (rewrite app_length; lia).
+    assert (G1 : fits (nb * bs) tl (length (concat Cs ++ ot)) = true) by (apply fits_true; lia).
+    assert (G2 : fits (nb * bs) tl (length i) = true) by (apply fits_true; lia).
+    assert (ET : forall ot', firstn tl (skipn (nb * bs) (concat Cs ++ ot')) = firstn tl ot').
+    { intros ot'. rewrite <- Hol, skipn_app_exact by reflexivity. reflexivity. }
+    assert (EI : firstn tl (skipn (nb * bs) i) = it).
+    { subst i. rewrite <- Hci, skipn_app_exact by reflexivity. apply firstn_all2. lia. }
+    destruct (Nat.eq_dec tl 0) as [Htl0|Htl0].
+    - unfold bs in G1, G2.
+      run_prefix 1.
+      eexists _, _. split; [reflexivity|]. split; [reflexivity|]. rewrite Emodel.
+      replace (Nat.eqb tl 0) with true by (symmetry; apply Nat.eqb_eq; exact Htl0). reflexivity.
+    - assert (G3 : len_eq (length (firstn tl (skipn (nb * bs) (concat Cs ++ ot)))) 0 = false).
+      { apply len_eq_false. rewrite ET, firstn_all2 by lia. lia. }
+      unfold bs in G1, G2, G3.
+      run_prefix 1.
+      run_prefix 1.
+      run_prefix 1. fold bs. unfold block in *.
+      repeat first [ok_check | progress (rewrite ?(ET ot), ?EI, ?(firstn_all2 ot), ?zeros_length by lia) | progress (rewrite <- ?Etl)].
+      remember (if al then ot else it) as tin eqn:Etin.
+      assert (Htin : length tin = tl) by (subst tin; destruct al; lia).
+      repeat ok_check.
+      assert (Eblk : MirSem.splice 0 (tl - 0) tin (zeros bs) = tin ++ zeros (bs - tl)).
+      { unfold MirSem.splice. cbn [firstn app Nat.add]. f_equal. unfold zeros. rewrite skipn_repeat_l. f_equal. lia. }
+      rewrite Eblk.
+      remember (tin ++ zeros (bs - tl)) as blk eqn:Eb.
+      assert (Hblk : length blk = bs) by (subst blk; rewrite app_length, zeros_length; lia).
+      unfold bs. run_prefix 2. fold bs.
+      match goal with |- context [VBlk (c_E C ?x)] => remember (c_E C x) as cb eqn:Ecb end.
+      assert (Hcb : length cb = bs) by (subst cb; apply E_len; rewrite xor_into_length; exact Hblk).
+      assert (Ecl : forall ot', cells_of bs al (firstn (nb * bs) (skipn 0 i)) (firstn (nb * bs) (skipn 0 (concat Cs ++ ot'))) = map2 (mkcell al) ib Cs).
+      { intros ot'. subst i. cbn [skipn]. Transparent cells_of. unfold cells_of. Opaque cells_of.
+        rewrite <- Hci at 1. rewrite <- Hol. rewrite !firstn_app_exact by reflexivity. rewrite !(chunks_blocks_only C) by auto. reflexivity. }
+      assert (Erd : forall ot', map rd_out (cells_of bs al (firstn (nb * bs) (skipn 0 i)) (firstn (nb * bs) (skipn 0 (concat Cs ++ ot')))) = Cs).
+      { intros ot'. rewrite Ecl. apply map_rd_out_mkcell. lia. }
+      destruct (exists_last (l := Cs)) as (Cp & cl & ECp). { intros E0; rewrite E0 in HCl; cbn in HCl; lia. }
+      assert (Hcp : length Cp = nb - 1) by (rewrite ECp, app_length in HCl; cbn in HCl; lia).
+      assert (Hcl : length cl = bs) by (rewrite ECp in HCa; apply Forall_app in HCa; destruct HCa as [_ Hx]; inversion Hx; auto).
+      assert (Enth : nth (nb - 1) Cs [] = cl).
+      { rewrite ECp, <- Hcp, app_nth2, Nat.sub_diag by lia. reflexivity. }
+      assert (Eup : upd_nth (nb - 1) cb Cs = Cp ++ [cb]).
+      { rewrite ECp, <- Hcp. clear. induction Cp as [|x Cp IH]; cbn [length upd_nth app]; [reflexivity|]. f_equal. exact IH. }
+      assert (Hcpl : length (concat Cp) = (nb - 1) * bs).
+      { rewrite (all_len_concat_length bs). - unfold block in *; lia. - rewrite ECp in HCa. apply Forall_app in HCa. tauto. }
+      assert (Hup : length (concat (Cp ++ [cb])) = nb * bs).
+      { rewrite concat_app, app_length, Hcpl. cbn [concat]. rewrite app_nil_r, Hcb. nia. }
+      assert (Eow : outs_of (map2 wr_out (map2 (mkcell al) ib Cs) (Cp ++ [cb])) = concat (Cp ++ [cb])).
+      { apply outs_wr_mkcell; [lia|]. rewrite app_length. cbn [length]. lia. }
+      assert (Eo3 : forall t, MirSem.splice 0 (nb * bs) (concat (Cp ++ [cb])) (concat Cs ++ t) = concat (Cp ++ [cb]) ++ t).
+      { intros t. apply seg_write_head. lia. }
+      unfold bs. run_prefix 1. fold bs. unfold block in *.
+      repeat first [ok_check | progress (cbn [length]) | progress (rewrite ?Erd, ?Ecl, ?Enth, ?HCl, ?Hcl, ?app_length, ?zeros_length, ?Htin, ?Eup,
+         ?Eow, ?map2_length, ?Hup, <- ?Enb, ?Nat.min_id, ?Hcp, ?Eo3)].
+      assert (HL2 : length (concat (Cp ++ [cb]) ++ ot) = nb * bs + tl) by (rewrite app_length; lia).
+      assert (ET2 : forall ot', firstn tl (skipn (nb * bs) (concat (Cp ++ [cb]) ++ ot')) = firstn tl ot').
+      { intros ot'. rewrite <- Hup, skipn_app_exact by reflexivity. reflexivity. }
+      unfold bs. run_prefix 1. fold bs. unfold block in *.
+      repeat first [ok_check | progress (rewrite ?HL2, ?ET2, ?(firstn_all2 ot), ?Hcl by lia) | progress (rewrite <- ?Etl)].
+      run_rest. fold bs. unfold block in *.
+      repeat first [ok_check | progress (rewrite ?HL2, ?ET2, ?(firstn_all2 ot), ?Hcl, ?firstn_length, ?skipn_length by lia) | progress (rewrite <- ?Etl)].
+      assert (Eo4 : MirSem.splice (nb * bs) tl (firstn (tl - 0) (skipn 0 cl)) (concat (Cp ++ [cb]) ++ ot) = concat (Cp ++ [cb]) ++ firstn tl cl).
+      { cbn [skipn]. rewrite Nat.sub_0_r. unfold MirSem.splice. rewrite <- Hup at 1. rewrite firstn_app_exact by reflexivity.
+        rewrite skipn_all2 by (rewrite app_length; lia). rewrite app_nil_r. reflexivity. }
+      rewrite ?Eo4.
+      eexists _, _. split; [reflexivity|]. split; [reflexivity|]. rewrite Emodel.
+      replace (Nat.eqb tl 0) with false by (symmetry; apply Nat.eqb_neq; lia).
+      unfold cbc_steal_enc. fold bs. unfold usub. replace (Nat.leb 1 nb) with true by (symmetry; apply Nat.leb_le; lia).
+      assert (Ego : mget_out (mkmem al i (concat Cs ++ ot)) ((nb - 1) * bs) bs = Ok cl).
+      { unfold mget_out, slice. cbn [m_out]. rewrite HL1.
+        replace (Nat.leb ((nb - 1) * bs) ((nb - 1) * bs + bs)) with true by (symmetry; apply Nat.leb_le; lia).
+        replace (Nat.leb ((nb - 1) * bs + bs) (nb * bs + tl)) with true by (symmetry; apply Nat.leb_le; nia). cbn [andb].
+        replace ((nb - 1) * bs + bs - (nb - 1) * bs) with bs by lia.
+        rewrite ECp, concat_app, <- app_assoc, <- Hcpl, skipn_app_exact by reflexivity. cbn [concat]. rewrite app_nil_r, <- Hcl, firstn_app_exact by reflexivity. reflexivity. }
+      assert (Eg : mget_in (mkmem al i (concat Cs ++ ot)) (nb * bs) tl = Ok tin).
+      { unfold mget_in, msrc, slice. cbn [m_al m_in m_out]. subst tin.
+        replace (nb * bs + tl - nb * bs) with tl by lia.
+        destruct al.
+        - rewrite HL1. replace (Nat.leb (nb * bs) (nb * bs + tl)) with true by (symmetry; apply Nat.leb_le; lia).
+          rewrite Nat.leb_refl. cbn [andb]. rewrite (ET ot), firstn_all2 by lia. reflexivity.
+        - rewrite HLi. replace (Nat.leb (nb * bs) (nb * bs + tl)) with true by (symmetry; apply Nat.leb_le; lia).
+          rewrite Nat.leb_refl. cbn [andb]. rewrite EI. reflexivity. }
+      rewrite Eg. cbn [obind]. rewrite Ego. cbn [obind]. rewrite <- Eb, <- (xor_into_eq blk (last Cs iv)) by lia. unfold block in *. rewrite <- Ecb.
+      unfold mput_out at 1. cbn [m_al m_in m_out]. rewrite HL1, Hcb.
+      replace (Nat.leb ((nb - 1) * bs + bs) (nb * bs + tl)) with true by (symmetry; apply Nat.leb_le; nia). cbn [obind].
+      assert (Es1 : splice (concat Cs ++ ot) ((nb - 1) * bs) cb = concat (Cp ++ [cb]) ++ ot).
+      { unfold splice. rewrite Hcb. rewrite ECp at 1 2. rewrite !concat_app. cbn [concat]. rewrite !app_nil_r, <- !app_assoc.
+        rewrite <- Hcpl, firstn_app_exact by reflexivity. rewrite skipn_app, skipn_all2, Hcpl by lia.
+        replace ((nb - 1) * bs + bs - (nb - 1) * bs) with bs by lia. rewrite <- Hcl, skipn_app_exact by reflexivity. reflexivity. }
+      rewrite Es1. unfold mput_out. cbn [m_al m_in m_out]. rewrite HL2, firstn_length, Hcl.
+      replace (Nat.leb (nb * bs + Nat.min tl bs) (nb * bs + tl)) with true by (symmetry; apply Nat.leb_le; lia).
+      do 2 f_equal. unfold splice. rewrite <- Hup at 1. rewrite firstn_app_exact by reflexivity.
+      rewrite skipn_all2 by (rewrite app_length, firstn_length; lia). rewrite app_nil_r. reflexivity.
+  Qed.
+
+  (* ---- C05 over the translated source: the bytes this closure body leaves in the buffer are the NIST SP 800-38A
+     Addendum ciphertext of the message, buffer-to-buffer (any prior contents of the output buffer) and in place --
+     the tie theorem above composed with Cts_cs_proofs.cbc_cs2_enc_ok (= Props/C05). *)
+  Theorem C05_cbc_cs2_enc_source_b2b iv (blocks : list (list N)) (tail : list N) (ob : list (list N)) (ot : list N) :
+    cipher_wf C -> length iv = bs -> all_len bs blocks -> 1 <= length blocks -> length tail < bs ->
+    all_len bs ob -> length ob = length blocks -> length ot = length tail ->
+    exists e', run_body X (cenv true iv false (concat blocks ++ tail) (concat ob ++ ot)) cts__cbc_cs2__BlockCipherEncClosure__Closure__call = Some (e', VUnit)
+      /\ lookup "buf" e' = Some (VBuf false (concat blocks ++ tail) (cbc_cs2_spec bs (c_E C) iv blocks tail)).
+  Proof.
+    intros Cwf Hiv Hb Hn Ht Hob Hobl Hotl.
+    destruct (tie_cts__cbc_cs2__BlockCipherEncClosure__Closure__call iv false blocks tail ob ot) as (e' & o' & Hrun & Hbuf & Hmod); auto; try lia.
+    assert (Hm : msg_mem C (mkmem false (concat blocks ++ tail) (concat ob ++ ot)) blocks tail).
+    { constructor; auto. split; [|discriminate]. cbn [m_in m_out]. rewrite !app_length, !(all_len_concat_length bs) by auto. lia. }
+    destruct (cbc_cs2_enc_ok C Cwf iv _ blocks tail Hiv Hm) as (m' & E1 & E2).
+    fold bs in E2. rewrite Hmod in E1. injection E1 as <-. cbn [m_out] in E2. subst o'.
+    exists e'. split; [exact Hrun | exact Hbuf].
+  Qed.
+
+  Theorem C05_cbc_cs2_enc_source_inplace iv (blocks : list (list N)) (tail : list N) :
+    cipher_wf C -> length iv = bs -> all_len bs blocks -> 1 <= length blocks -> length tail < bs ->
+    exists e', run_body X (cenv true iv true (concat blocks ++ tail) (concat blocks ++ tail)) cts__cbc_cs2__BlockCipherEncClosure__Closure__call = Some (e', VUnit)
+      /\ lookup "buf" e' = Some (VBuf true (concat blocks ++ tail) (cbc_cs2_spec bs (c_E C) iv blocks tail)).
+  Proof.
+    intros Cwf Hiv Hb Hn Ht.
+    destruct (tie_cts__cbc_cs2__BlockCipherEncClosure__Closure__call iv true blocks tail blocks tail) as (e' & o' & Hrun & Hbuf & Hmod); auto; try lia.
+    assert (Hm : msg_mem C (mkmem true (concat blocks ++ tail) (concat blocks ++ tail)) blocks tail).
+    { constructor; auto. split; auto. }
+    destruct (cbc_cs2_enc_ok C Cwf iv _ blocks tail Hiv Hm) as (m' & E1 & E2).
+    fold bs in E2. rewrite Hmod in E1. injection E1 as <-. cbn [m_out] in E2. subst o'.
+    exists e'. split; [exact Hrun | exact Hbuf].
+  Qed.
+End CbcCs2Enc.
+
+(* ---- C01 over the translated source: the translated CbcCs2 encryption closure run in place on a message, then the
+   translated decryption closure run in place (same IV) on what it left, returns the message (D inverse to E on blocks).
+   Composition of the two closure ties with Cts_dec_proofs.cts_roundtrip_composed (= Props/C01, C01_cts). *)
+Section CbcCs2RoundTrip.
+  Variable C : cipher.
+  Let bs := c_bs C.
+  Hypothesis Cwf : cipher_wf C.
+  Hypothesis DE : DE_id C.
+  Let Xe := bctx C [("cbc_enc", FSem (ClosureLib.cbc_enc_sem C)); ("xor", FSem xor_sem); ("core::mem::replace", FSem replace_sem)]
+                   [("into_chunks::BS", VNat bs); ("Block::<B>::default()", VBlk (zeros bs)); ("B::BlockSize::USIZE", VNat bs)].
+  Let Xd := bctx C [("cbc_dec", FSem (cbc_dec_sem C)); ("xor", FSem xor_sem)]
+                   [("into_chunks::BS", VNat bs); ("Block::<B>::default()", VBlk (zeros bs)); ("B::BlockSize::USIZE", VNat bs); ("try_into::LEN", VNat bs)].
+
+  Theorem C01_cbc_cs2_source_inplace (iv : list N) (blocks : list (list N)) (tail : list N) :
+    length iv = bs -> all_len bs blocks -> 1 <= length blocks -> length tail < bs ->
+    let M := concat blocks ++ tail in
+    exists e1 c e2,
+      run_body Xe (cenv true iv true M M) cts__cbc_cs2__BlockCipherEncClosure__Closure__call = Some (e1, VUnit)
+      /\ lookup "buf" e1 = Some (VBuf true M c) /\ length c = length M
+      /\ run_body Xd (cenv false iv true c c) cts__cbc_cs2__BlockCipherDecClosure__Closure__call = Some (e2, VUnit)
+      /\ lookup "buf" e2 = Some (VBuf true c M).
+  Proof.
+    intros Hiv Hb Hn Ht M.
+    destruct Cwf as (bs_pos & Hw & E_len & D_len).
+    destruct (tie_cts__cbc_cs2__BlockCipherEncClosure__Closure__call C bs_pos E_len iv true blocks tail blocks tail) as (e1 & c & Hrun1 & Hbuf1 & Hmod1); auto.
+    fold M in Hrun1, Hbuf1, Hmod1.
+    assert (Hm : msg_mem C (mkmem true M M) blocks tail) by (constructor; auto; split; auto).
+    assert (Hwf2 : mwf (mkmem true c c)) by (split; auto).
+    destruct (cts_roundtrip_composed C (conj bs_pos (conj Hw (conj E_len D_len))) DE CbcCs2 iv (mkmem true M M) blocks tail (mkmem true c c)
+                Hiv Hm Hwf2) as (c0 & Ec0 & Hlen & Hdec).
+    cbn [cts_run] in Ec0, Hdec. rewrite Hmod1 in Ec0. injection Ec0 as <-. unfold mlen in Hlen. cbn [m_out] in Hlen.
+    destruct (Hdec eq_refl) as (p & Ep & Hp).
+    destruct (chunks_decompose bs c bs_pos) as (bl & t & Ec & Hbl & Htl & _).
+    assert (Hbn : 1 <= length bl).
+    { assert (HL : length c = length bl * bs + length t) by (rewrite Ec at 1; rewrite app_length, (all_len_concat_length bs) by auto; reflexivity).
+      assert (HM : length M = length blocks * bs + length tail) by (unfold M; rewrite app_length, (all_len_concat_length bs) by auto; reflexivity).
+      destruct bl; [cbn [length] in HL; fold bs in Htl; nia | cbn [length]; lia]. }
+    destruct (tie_cts__cbc_cs2__BlockCipherDecClosure__Closure__call C (conj bs_pos (conj Hw (conj E_len D_len))) iv true bl t bl t) as (e2 & o2 & Hrun2 & Hbuf2 & Hmod2); auto.
+    rewrite <- Ec in Hrun2, Hbuf2, Hmod2. rewrite Hmod2 in Ep. injection Ep as <-. cbn [m_out] in Hp. subst o2.
+    exists e1, c, e2. repeat split; auto.
+  Qed.
+End CbcCs2RoundTrip.
